@@ -59,6 +59,18 @@ CLAIMED["C07"] = dict(
     technique="TLA+ spec Lifecycle + TLC history enumeration, replay in forked real processes, TLC trace validation (LifecycleTrace, memo form)",
 )
 
+CLAIMED["C08"] = dict(
+    category="model_checking",
+    text="TLC enumerates base queries (exhaustively to the size bound, plus seeded -simulate derivations deep enough for shadowing to matter) and derives their "
+         "variants: alpha-renamings from hostile name pools (kept only when de Bruijn forms agree), fused Where/Select chains, qastle wire format, MetaData "
+         "outermost, call style. Base and variant are translated by the real code in fresh forks; TLC re-checks that each variant denotes the same rows and "
+         "requires the name-normalised packages to be equal.",
+    design_ref="DESIGN.md section 5 C08",
+    note="Fusions are restricted to chains sitting on a plain source and to linear Select bodies (otherwise the fused query is an equivalent but legitimately "
+         "different program); comparison after renaming generated identifiers and blanking the First() diagnostic text.",
+    technique="TLA+ spec Variants (de Bruijn alpha-equivalence, fusion) + TLC enumeration/simulation, replay into the real translator, TLC trace validation (VariantTrace)",
+)
+
 PENDING = "check not built yet in this round (planned, see DESIGN.md section 11); not claimed until its machinery exists"
 
 
